@@ -134,8 +134,8 @@ func NewFuture(ctx context.Context, fn MalFunc) *Future {
 	}
 	simTask := simhook.Spawn(f)
 	go func() {
-		simhook.TaskStart(simTask)
 		defer simhook.TaskEnd(simTask)
+		simhook.TaskStart(simTask)
 		defer func() { f.Done = true }()
 		res, err := Apply(ctx, fn, nil)
 		simhook.Yield("future.body-returned", f)
